@@ -38,7 +38,11 @@ class C16(Prop):
         rows4 = C.read_jsonl(p4)
         if rc != 0 or not rows4:
             raise RuntimeError("C16 server-down harness did not run: rc=%s\n%s" % (rc, out[-2000:]))
-        return {"rows": rows + rows2 + rows3 + rows4}
+        rc, out, p5, dt = C.go_test_overlay(ctx.work, "./utils/tcpbridge/connection/", "TestVerifC16SlowUpload$", OVERLAY, "C16Upload.jsonl", ctx.seed, ctx.tier, timeout=900, extra_env=env)
+        rows5 = C.read_jsonl(p5)
+        if rc != 0 or not rows5:
+            raise RuntimeError("C16 slow-upload harness did not run: rc=%s\n%s" % (rc, out[-2000:]))
+        return {"rows": rows + rows2 + rows3 + rows4 + rows5}
 
     def oracle(self, ctx, obs):
         res = []
@@ -46,6 +50,14 @@ class C16(Prop):
             if r["kind"] == "open-count":
                 if r["open"] != 0:
                     res.append(("connections-leaked", "%d of %d bridged connections are still open on the TCP server after both ends are gone" % (r["open"], r["scenarios"]), r))
+                continue
+            if r["kind"] == "slow-upload":
+                rp = {"driver": "TestVerifC16SlowUpload: the client uploads 84 MiB to a TCP server that reads 4 MiB/s (about 21 s); nobody closes", "observed": r}
+                if r.get("err"):
+                    res.append(("bridge-connect-error", r["err"], rp))
+                elif r.get("client_written") != r.get("sent_target") or r.get("server_read") != r.get("sent_target") or r.get("server_err") or r.get("client_err") or r.get("ack_err"):
+                    res.append(("cut-off-while-both-peers-open", "an upload of %s bytes that took %s ms was cut off: the client wrote %s (%s), the server read %s (%s), acknowledgement: %s" % (
+                        r.get("sent_target"), r.get("upload_ms"), r.get("client_written"), r.get("client_err", "no error"), r.get("server_read"), r.get("server_err") or "no error", r.get("ack_err", "received")), rp))
                 continue
             if r["kind"] == "server-down":
                 rp = {"driver": "TestVerifC16Down: TCP client -> tcp-bridge-frontend <=ws=> tcp-bridge-backend -> TCP server whose listener is closed", "observed": r}
